@@ -136,3 +136,102 @@ package trace
 //@   pure
 //@ interface ReadOnlySpan.Resource() (r *resource.Resource)
 //@   pure
+
+// ======================================================================== C04 span contents against a reference model
+// bounded FIFO: capacity 0 drops everything, negative capacity is unbounded, otherwise the oldest element is evicted
+//@ typeinv evictedQueue = self.capacity > 0 ==> len(self.queue) <= self.capacity
+//@ func (eq *evictedQueue[T]) add(value T)
+//@   prop C04
+//@   instances Event; Link
+//@   overflow assumed
+//@   requires eq != nil
+//@   modifies eq, elemscap(eq.queue)
+//@   ensures eq.capacity == old(eq.capacity)
+//@   ensures old(eq.capacity) == 0 ==> eq.queue === old(eq.queue) && eq.droppedCount == old(eq.droppedCount) + 1
+//@   ensures old(eq.capacity) != 0 && !(old(eq.capacity) > 0 && old(len(eq.queue)) == old(eq.capacity)) ==> len(eq.queue) == old(len(eq.queue)) + 1 && eq.droppedCount == old(eq.droppedCount) && eq.queue[len(eq.queue)-1] == value && (forall i in 0 .. old(len(eq.queue)) : eq.queue[i] == old(eq.queue[i]))
+//@   ensures old(eq.capacity) > 0 && old(len(eq.queue)) == old(eq.capacity) ==> len(eq.queue) == old(len(eq.queue)) && eq.droppedCount == old(eq.droppedCount) + 1 && eq.queue[len(eq.queue)-1] == value && (forall i in 0 .. len(eq.queue)-1 : eq.queue[i] == old(eq.queue[i+1]))
+
+// status precedence Unset < Error < Ok; description only with Error; nothing changes once the span has ended
+//@ func (s *recordingSpan) SetStatus(code codes.Code, description string)
+//@   prop C04 C10
+//@   modifies s.status
+//@   ensures s != nil && (!old(s.endTime.IsZero()) || old(s.status.Code) > code) ==> s.status == old(s.status)
+//@   ensures s != nil && old(s.endTime.IsZero()) && old(s.status.Code) <= code ==> s.status.Code == code && s.status.Description == ite(code == codes.Error, description, "")
+
+//@ func (s *recordingSpan) SetName(name string)
+//@   prop C04 C10
+//@   modifies s.name
+//@   ensures s != nil ==> s.name == ite(old(s.endTime.IsZero()), name, old(s.name))
+
+//@ func (s *recordingSpan) addChild()
+//@   prop C04 C10
+//@   overflow assumed
+//@   modifies s.childSpanCount
+//@   ensures s != nil ==> s.childSpanCount == ite(old(s.endTime.IsZero()), old(s.childSpanCount) + 1, old(s.childSpanCount))
+
+//@ func (s *recordingSpan) isRecording() (r bool)
+//@   prop C04 C10
+//@   holds s.mu
+//@   ensures r == (s != nil && s.endTime.IsZero())
+
+//@ func (s *recordingSpan) IsRecording() (r bool)
+//@   prop C10
+//@   ensures r == (s != nil && s.endTime.IsZero())
+
+// per-event attribute cap, then the FIFO contract
+//@ func (s *recordingSpan) addEvent(name string, o []trace.EventOption)
+//@   prop C04 C10
+//@   holds s.mu
+//@   unchecked frame the option plumbing in trace.NewEventConfig (other module) is not under contract
+//@   requires s != nil && s.tracer != nil && s.tracer.provider != nil
+//@   assert@call evictedQueue[Event].add#1 : e.Name == name
+//@   assert@call evictedQueue[Event].add#1 : limit == 0 ==> len(e.Attributes) == 0 && e.DroppedAttributeCount == len(c.attributes)
+//@   assert@call evictedQueue[Event].add#1 : limit > 0 && len(c.attributes) > limit ==> len(e.Attributes) == limit && e.DroppedAttributeCount == len(c.attributes) - limit && (forall i in 0 .. limit : e.Attributes[i] == c.attributes[i])
+//@   assert@call evictedQueue[Event].add#1 : limit < 0 || (limit > 0 && len(c.attributes) <= limit) ==> e.Attributes === c.attributes && e.DroppedAttributeCount == 0
+
+//@ func (s *recordingSpan) AddEvent(name string, o []trace.EventOption)
+//@   prop C04 C10
+//@   unchecked frame the option plumbing in trace.NewEventConfig (other module) is not under contract
+//@   requires s == nil || (s.tracer != nil && s.tracer.provider != nil)
+//@   ensures s != nil && !old(s.endTime.IsZero()) ==> s.events == old(s.events)
+
+// per-link attribute cap; the empty link is ignored; nothing after End
+//@ func (s *recordingSpan) AddLink(link trace.Link)
+//@   prop C04 C10
+//@   requires s == nil || (s.tracer != nil && s.tracer.provider != nil)
+//@   modifies s.links, elemscap(s.links.queue)
+//@   ensures s != nil && !old(s.endTime.IsZero()) ==> s.links == old(s.links)
+//@   assert@call evictedQueue[Link].add#1 : l.SpanContext == link.SpanContext
+//@   assert@call evictedQueue[Link].add#1 : limit == 0 ==> len(l.Attributes) == 0 && l.DroppedAttributeCount == len(link.Attributes)
+//@   assert@call evictedQueue[Link].add#1 : limit > 0 && len(link.Attributes) > limit ==> len(l.Attributes) == limit && l.DroppedAttributeCount == len(link.Attributes) - limit && (forall i in 0 .. limit : l.Attributes[i] == link.Attributes[i])
+//@   assert@call evictedQueue[Link].add#1 : limit < 0 || (limit > 0 && len(link.Attributes) <= limit) ==> l.Attributes === link.Attributes && l.DroppedAttributeCount == 0
+
+// ======================================================================== C10 locking discipline of a span
+//@ guarded_by recordingSpan.mu: name, endTime, status, childSpanCount, attributes, droppedAttributes, events, links, executionTracerTaskEnd
+
+// ghost: number of End calls that committed to ending the span (stored an end time). The lock invariant ties it to the
+// end time, so it can only hold if the recording check and the end-time store happen in ONE critical section: then
+// exactly one End wins in every interleaving and the span is delivered to the processors at most once.
+//@ ghost var ends map[*recordingSpan]int
+//@ lockinv recordingSpan.mu: ends[self] == ite(self.endTime.IsZero(), 0, 1)
+
+//@ func monotonicEndTime(start time.Time) (r time.Time)
+//@   prop -
+//@   trusted "start.Add(time.Since(start)): a wall-clock reading, never the zero time"
+//@   ensures !r.IsZero()
+
+//@ func (s *recordingSpan) snapshot() (r ReadOnlySpan)
+//@   prop -
+//@   trusted "field-by-field copy under the span lock (takes s.mu itself)"
+//@   acquires s.mu
+//@   ensures r != nil
+
+//@ func (s *recordingSpan) End(options []trace.SpanEndOption)
+//@   prop C10
+//@   unchecked no-panic,frame processors are third-party values loaded from an atomic pointer; option plumbing in trace.NewSpanEndConfig is not under contract
+//@   requires s == nil || (s.tracer != nil && s.tracer.provider != nil)
+//@   modifies ghost ends
+//@   ghost@store endTime#* : ends = store(ends, s, ends[s] + 1)
+//@   assert@call OnEnd#* : !holds(s.mu)
+//@   assert@call recordingSpan.snapshot#* : !holds(s.mu)
+//@   ensures s != nil ==> ends[s] <= old(ends[s]) + 1
